@@ -312,6 +312,8 @@ def lp_many_enum(tier):
         for order in ('little', 'big'):
             yield {'prefix': p, 'order': order, 'n': 1500, 'size': 5, 'chunk': 0}
             yield {'prefix': p, 'order': order, 'n': 2000, 'size': 101 - p, 'chunk': 1000}
+            if p > 1:
+                yield {'prefix': p, 'order': order, 'n': 700, 'size': 300, 'chunk': 0, 'cut_in_prefix': 3 * (300 + p) + p // 2}
 
 
 def check_lp_many(case):
@@ -321,6 +323,9 @@ def check_lp_many(case):
     frames = _frame_lp(items, p, order)
     stream = b''.join(frames)
     chunks = [stream] if not case['chunk'] else [stream[a:a + case['chunk']] for a in range(0, len(stream), case['chunk'])]
+    if case.get('cut_in_prefix'):
+        # the first chunk ends INSIDE a length prefix, the second one is much longer than 64 KiB
+        chunks = [stream[:case['cut_in_prefix']], stream[case['cut_in_prefix']:]]
     r = drive.collect(rx.from_(chunks).pipe(lp.unframe(prefix_size=p, byteorder=order)))
     H.require_clean(r, 'length_prefix.unframe', **case)
     if r.items != items:
